@@ -1,15 +1,18 @@
-/* contracts/vector.h - contracts on the real functions of /repo/src/vector.c,
- * attached to re-declarations (the definitions are compiled unchanged).
- * Verifier build only. */
+/* contracts/vector.h - contracts on the real functions of /repo/src/vector.c, attached to
+ * re-declarations (the definitions are compiled unchanged from /repo).  Verifier build only.
+ *
+ * Ghost index vc_k (chosen nondeterministically by the harness) stands for "every cell".
+ */
 #ifndef VC_CONTRACTS_VECTOR_H
 #define VC_CONTRACTS_VECTOR_H
 #ifdef VC_CBMC
 #include "common.h"
 #include "vector.h"
+#include "numeric.h"
 
 /* representation invariant of dvector/uivector/ivector:
- *   struct live; size in machine range; data NULL or the start of a live heap
- *   block (so it can be realloc'ed / freed) that holds at least size cells. */
+ *   struct live; size in machine range; data NULL or the start of a live heap block (so it can be
+ *   realloc'ed / freed) that holds at least size cells. */
 #define VC_VEC_WF(v, T)                                                     \
   (__CPROVER_rw_ok((v), sizeof(*(v))) && (v)->size <= VC_MAXN &&            \
    __CPROVER_is_freeable((v)->data) &&                                      \
@@ -17,14 +20,194 @@
 #define VC_DV_WF(v) VC_VEC_WF(v, double)
 #define VC_UIV_WF(v) VC_VEC_WF(v, size_t)
 #define VC_IV_WF(v) VC_VEC_WF(v, int)
+#define VC_SEP(a, b) (!__CPROVER_same_object((a), (b)))
+/* old value of cell k of v.  DFCC snapshots *p as (R_OK(p) ? *p : nondet), so an out-of-range ghost index is
+ * harmless; every use below is guarded by "k < old size". */
+#define VC_OLDCELL(v, k) __CPROVER_old((v)->data[(k)])
+#define VC_EQ(a, b) (((a) == (b)) || (((a) != (a)) && ((b) != (b))))
 
-void NewDVector(dvector **d, size_t size)
-__CPROVER_requires(__CPROVER_rw_ok(d, sizeof(*d)) && size <= VC_MAXN)
-__CPROVER_assigns(*d)
-__CPROVER_ensures(VC_DV_WF(*d) && (*d)->size == size)
-__CPROVER_ensures(__CPROVER_is_fresh(*d, sizeof(dvector)))
-__CPROVER_ensures(vc_k < size ==> (*d)->data[vc_k] == 0.0)
-;
+/* ---------------------------------------------------------------- generic part, per vector kind */
+#define VC_VECTOR_CONTRACTS(P, T, E)                                                              \
+  void init##P(T **d)                                                                             \
+  __CPROVER_requires(__CPROVER_rw_ok(d, sizeof(*d)))                                              \
+  __CPROVER_assigns(*d)                                                                           \
+  __CPROVER_ensures(__CPROVER_is_fresh(*d, sizeof(T)) && (*d)->size == 0 && (*d)->data == NULL);  \
+                                                                                                  \
+  void New##P(T **d, size_t size)                                                                 \
+  __CPROVER_requires(__CPROVER_rw_ok(d, sizeof(*d)) && size <= VC_MAXN)                           \
+  __CPROVER_assigns(*d)                                                                           \
+  __CPROVER_ensures(__CPROVER_is_fresh(*d, sizeof(T)))                                            \
+  __CPROVER_ensures((*d)->size == size)                                                           \
+  __CPROVER_ensures(__CPROVER_is_fresh((*d)->data, size * sizeof(E)))                             \
+  __CPROVER_ensures(VC_VEC_WF(*d, E))                                                             \
+  __CPROVER_ensures(vc_k < size ==> (*d)->data[vc_k] == 0);                                       \
+                                                                                                  \
+  void Del##P(T **d)                                                                              \
+  __CPROVER_requires(__CPROVER_rw_ok(d, sizeof(*d)) && VC_VEC_WF(*d, E) &&                        \
+                     __CPROVER_is_freeable(*d) && VC_SEP(*d, (*d)->data))                         \
+  __CPROVER_assigns()                                                                             \
+  __CPROVER_frees(*d, (*d)->data)                                                                 \
+  __CPROVER_ensures(__CPROVER_was_freed(__CPROVER_old(*d)))                                       \
+  __CPROVER_ensures(__CPROVER_old((*d)->data) == NULL ||                                          \
+                    __CPROVER_was_freed(__CPROVER_old((*d)->data)));                              \
+                                                                                                  \
+  void P##Append(T *d, E val)                                                                     \
+  __CPROVER_requires(VC_VEC_WF(d, E) && d->size < VC_MAXN && VC_SEP(d, d->data))                  \
+  __CPROVER_assigns(d->size, d->data; d->data != NULL: __CPROVER_object_whole(d->data))                            \
+  __CPROVER_frees(d->data)                                                                        \
+  __CPROVER_ensures(d->size == __CPROVER_old(d->size) + 1)                                        \
+  __CPROVER_ensures(__CPROVER_is_fresh(d->data, d->size * sizeof(E)))                             \
+  __CPROVER_ensures(VC_VEC_WF(d, E) && VC_SEP(d, d->data))                                        \
+  __CPROVER_ensures(VC_EQ(d->data[d->size - 1], val))                                             \
+  __CPROVER_ensures(vc_k < __CPROVER_old(d->size) ==> VC_EQ(d->data[vc_k], VC_OLDCELL(d, vc_k))); \
+                                                                                                  \
+  void P##RemoveAt(T *d, size_t indx)                                                             \
+  __CPROVER_requires(VC_VEC_WF(d, E) && VC_SEP(d, d->data))                                       \
+  __CPROVER_assigns(d->size; d->data != NULL: __CPROVER_object_whole(d->data))                                     \
+  __CPROVER_ensures(VC_VEC_WF(d, E) && d->data == __CPROVER_old(d->data))                         \
+  __CPROVER_ensures(d->size == (indx < __CPROVER_old(d->size) ? __CPROVER_old(d->size) - 1        \
+                                                             : __CPROVER_old(d->size)))           \
+  __CPROVER_ensures((vc_k < d->size && (vc_k < indx || indx >= __CPROVER_old(d->size))) ==>       \
+                    VC_EQ(d->data[vc_k], VC_OLDCELL(d, vc_k)))                                    \
+  __CPROVER_ensures((vc_k < d->size && vc_k >= indx) ==>                                          \
+                    VC_EQ(d->data[vc_k], VC_OLDCELL(d, vc_k + 1)));                               \
+                                                                                                  \
+  T *P##Extend(T *d1, T *d2)                                                                      \
+  __CPROVER_requires(VC_VEC_WF(d1, E) && VC_VEC_WF(d2, E) && d1->size + d2->size <= VC_MAXN)      \
+  __CPROVER_assigns()                                                                             \
+  __CPROVER_ensures(__CPROVER_is_fresh(__CPROVER_return_value, sizeof(T)))                        \
+  __CPROVER_ensures(__CPROVER_return_value->size == d1->size + d2->size)                          \
+  __CPROVER_ensures(__CPROVER_is_fresh(__CPROVER_return_value->data,                              \
+                                       (d1->size + d2->size) * sizeof(E)))                        \
+  __CPROVER_ensures(VC_VEC_WF(__CPROVER_return_value, E))                                         \
+  __CPROVER_ensures(vc_k < d1->size ==>                                                           \
+                    VC_EQ(__CPROVER_return_value->data[vc_k], d1->data[vc_k]))                    \
+  __CPROVER_ensures((vc_k >= d1->size && vc_k < d1->size + d2->size) ==>                          \
+                    VC_EQ(__CPROVER_return_value->data[vc_k], d2->data[vc_k - d1->size]));        \
+                                                                                                  \
+  E get##P##Value(T *d, size_t id)                                                                \
+  __CPROVER_requires(VC_VEC_WF(d, E))                                                             \
+  __CPROVER_assigns()                                                                             \
+  __CPROVER_ensures(id < d->size) /* returns only for an index in range: clean abort otherwise */ \
+  __CPROVER_ensures(VC_EQ(__CPROVER_return_value, d->data[id]));                                  \
+                                                                                                  \
+  void P##Set(T *d, E val)                                                                        \
+  __CPROVER_requires(VC_VEC_WF(d, E) && VC_SEP(d, d->data))                                       \
+  __CPROVER_assigns(d->data != NULL: __CPROVER_object_whole(d->data))                                              \
+  __CPROVER_ensures(vc_k < d->size ==> VC_EQ(d->data[vc_k], val));
+
+VC_VECTOR_CONTRACTS(DVector, dvector, double)
+VC_VECTOR_CONTRACTS(UIVector, uivector, size_t)
+VC_VECTOR_CONTRACTS(IVector, ivector, int)
+
+/* ---------------------------------------------------------------- kind-specific */
+#define VC_RESIZE_CONTRACT(P, T, E)                                                               \
+  void P##Resize(T *d, size_t size_)                                                              \
+  __CPROVER_requires(VC_VEC_WF(d, E) && size_ <= VC_MAXN && VC_SEP(d, d->data))                   \
+  __CPROVER_assigns(d->size, d->data)                                                             \
+  __CPROVER_frees(d->data)                                                                        \
+  __CPROVER_ensures(d->size == size_)                                                             \
+  __CPROVER_ensures(__CPROVER_is_fresh(d->data, size_ * sizeof(E)))                               \
+  __CPROVER_ensures(VC_VEC_WF(d, E) && VC_SEP(d, d->data))                                        \
+  __CPROVER_ensures(vc_k < size_ ==> d->data[vc_k] == 0);
+VC_RESIZE_CONTRACT(DVector, dvector, double)
+VC_RESIZE_CONTRACT(UIVector, uivector, size_t)
+
+/* out-of-range set: dvector aborts; uivector/ivector print and leave the vector untouched */
+void setDVectorValue(dvector *d, size_t id, double val)
+__CPROVER_requires(VC_DV_WF(d) && VC_SEP(d, d->data))
+__CPROVER_assigns(d->data != NULL: __CPROVER_object_whole(d->data))
+__CPROVER_ensures(id < d->size && VC_EQ(d->data[id], val))
+__CPROVER_ensures((vc_k < d->size && vc_k != id) ==> VC_EQ(d->data[vc_k], VC_OLDCELL(d, vc_k)));
+
+#define VC_SOFTSET_CONTRACT(P, T, E)                                                              \
+  void set##P##Value(T *d, size_t id, E val)                                                      \
+  __CPROVER_requires(VC_VEC_WF(d, E) && VC_SEP(d, d->data))                                       \
+  __CPROVER_assigns(d->data != NULL: __CPROVER_object_whole(d->data))                                              \
+  __CPROVER_ensures(id < d->size ==> d->data[id] == val)                                          \
+  __CPROVER_ensures((vc_k < d->size && vc_k != id) ==> d->data[vc_k] == VC_OLDCELL(d, vc_k));
+VC_SOFTSET_CONTRACT(UIVector, uivector, size_t)
+VC_SOFTSET_CONTRACT(IVector, ivector, int)
+
+void DVectorCopy(dvector *dsrc, dvector *ddst)
+__CPROVER_requires(VC_DV_WF(dsrc) && VC_DV_WF(ddst) && VC_SEP(dsrc, ddst) && VC_SEP(ddst, ddst->data) &&
+                   VC_SEP(dsrc->data, ddst) && VC_SEP(dsrc, ddst->data) &&
+                   (dsrc->data == NULL || VC_SEP(dsrc->data, ddst->data)))
+__CPROVER_assigns(ddst->size, ddst->data; ddst->data != NULL: __CPROVER_object_whole(ddst->data))
+__CPROVER_frees(ddst->data)
+__CPROVER_ensures(ddst->size == dsrc->size)
+__CPROVER_ensures(__CPROVER_is_fresh(ddst->data, ddst->size * sizeof(double)))
+__CPROVER_ensures(VC_DV_WF(ddst) && VC_SEP(ddst, ddst->data))
+__CPROVER_ensures(vc_k < dsrc->size ==> VC_EQ(ddst->data[vc_k], dsrc->data[vc_k]))
+__CPROVER_ensures(dsrc->data == NULL || VC_SEP(dsrc->data, ddst->data)) /* deep copy */;
+
+int DVectorHasValue(dvector *d, double val)
+__CPROVER_requires(VC_DV_WF(d))
+__CPROVER_assigns()
+__CPROVER_ensures(__CPROVER_return_value == 0 || __CPROVER_return_value == 1)
+__CPROVER_ensures((__CPROVER_return_value == 1 && vc_k < d->size) ==> !FLOAT_EQ(d->data[vc_k], val, EPSILON));
+
+int UIVectorHasValue(uivector *u, size_t id)
+__CPROVER_requires(VC_UIV_WF(u))
+__CPROVER_assigns()
+__CPROVER_ensures(__CPROVER_return_value == 0 || __CPROVER_return_value == 1)
+__CPROVER_ensures((__CPROVER_return_value == 1 && vc_k < u->size) ==> u->data[vc_k] != id);
+
+int IVectorHasValue(ivector *d, int val)
+__CPROVER_requires(VC_IV_WF(d))
+__CPROVER_assigns()
+__CPROVER_ensures(__CPROVER_return_value == 0 || __CPROVER_return_value == 1)
+__CPROVER_ensures((__CPROVER_return_value == 1 && vc_k < d->size) ==> d->data[vc_k] != val);
+
+int UIVectorIndexOf(uivector *u, size_t id)
+__CPROVER_requires(VC_UIV_WF(u))
+__CPROVER_assigns()
+__CPROVER_ensures(__CPROVER_return_value >= -1 && (__CPROVER_return_value == -1 || (size_t)__CPROVER_return_value < u->size))
+__CPROVER_ensures(__CPROVER_return_value >= 0 ==> u->data[__CPROVER_return_value] == id)
+/* first occurrence */
+__CPROVER_ensures((__CPROVER_return_value >= 0 && vc_k < (size_t)__CPROVER_return_value) ==> u->data[vc_k] != id)
+__CPROVER_ensures((__CPROVER_return_value == -1 && vc_k < u->size) ==> u->data[vc_k] != id);
+
+void DVectorMinMax(dvector *v, double *min, double *max)
+__CPROVER_requires(VC_DV_WF(v))
+__CPROVER_requires(min == NULL || (__CPROVER_rw_ok(min, sizeof(double)) && VC_SEP(min, v->data) && VC_SEP(min, v)))
+__CPROVER_requires(max == NULL || (__CPROVER_rw_ok(max, sizeof(double)) && VC_SEP(max, v->data) && VC_SEP(max, v)))
+__CPROVER_assigns(min != NULL: *min; max != NULL: *max)
+__CPROVER_ensures(v->size > 0) /* empty vector: clean abort */
+__CPROVER_ensures((min != NULL && vc_k < v->size) ==> !(v->data[vc_k] < *min))
+__CPROVER_ensures((max != NULL && vc_k < v->size) ==> !(v->data[vc_k] > *max));
+
+double DvectorModule(dvector *v)
+__CPROVER_requires(VC_DV_WF(v))
+__CPROVER_assigns()
+__CPROVER_ensures(1);
+
+double DVectorDVectorDotProd(dvector *v1, dvector *v2)
+__CPROVER_requires(VC_DV_WF(v1) && VC_DV_WF(v2) && v2->size >= v1->size)
+__CPROVER_assigns()
+__CPROVER_ensures(1);
+
+/* v and nv of any sizes are valid operands, and nv may be v itself (every caller in the library normalises in
+ * place): the routine must either write only inside nv or abort */
+void DVectNorm(dvector *v, dvector *nv)
+__CPROVER_requires(VC_DV_WF(v) && VC_DV_WF(nv) && VC_SEP(nv, nv->data) && VC_SEP(v, nv->data) && VC_SEP(v, v->data))
+__CPROVER_requires(v == nv || (VC_SEP(v, nv) && (v->data == NULL || VC_SEP(v->data, nv->data)) &&
+                               (v->data == NULL || VC_SEP(v->data, nv))))
+/* ghost binding: vc_g0 names the entry value of cell vc_k (restricts no real input) */
+__CPROVER_requires(vc_k < v->size ==> VC_EQ(v->data[vc_k], vc_g0))
+__CPROVER_assigns(nv->data != NULL: __CPROVER_object_whole(nv->data))
+__CPROVER_ensures(nv->size >= v->size && nv->size != 0)
+__CPROVER_ensures((vc_k < v->size && FLOAT_EQ(vc_g0, MISSING, 1e-1)) ==> nv->data[vc_k] == MISSING);
+
+void DVectorMean(dvector *d, double *mean)
+__CPROVER_requires(VC_DV_WF(d) && __CPROVER_rw_ok(mean, sizeof(double)) && VC_SEP(mean, d) && VC_SEP(mean, d->data))
+__CPROVER_assigns(*mean)
+__CPROVER_ensures(1);
+
+void DVectorSDEV(dvector *d, double *sdev)
+__CPROVER_requires(VC_DV_WF(d) && __CPROVER_rw_ok(sdev, sizeof(double)) && VC_SEP(sdev, d) && VC_SEP(sdev, d->data))
+__CPROVER_assigns(*sdev)
+__CPROVER_ensures(1);
 
 #endif
 #endif
